@@ -438,6 +438,7 @@ func cmdCheck(args []string) {
 			var okPaths []*symex.PathResult
 			var cands []symex.Candidate
 			unsW := map[string]int{}
+			var unsupModels []map[string]string
 			for _, r := range res {
 				st.Paths++
 				st.Steps += r.Steps
@@ -451,6 +452,9 @@ func cmdCheck(args []string) {
 				case "unsupported":
 					st.Unsupported++
 					unsW[r.Why]++
+					if r.Model != nil && len(unsupModels) < 4000 {
+						unsupModels = append(unsupModels, r.Model)
+					}
 				case "budget":
 					st.Truncated++
 				}
@@ -486,6 +490,45 @@ func cmdCheck(args []string) {
 			if len(st.Sites) == 0 && len(bugs) == 0 {
 				cr.internal = append(cr.internal, h.Name+": vacuous: no assertion site reached on any feasible path")
 			}
+			// --- paths that left the encoding: the engine cannot say what the
+			// code does there, but the real build can be asked whether it
+			// survives (a process that dies is a violation whatever the
+			// property; observations are not compared)
+			if len(unsupModels) > 0 && !*canary {
+				var ucases []nativeCase
+				// (up to 48 of them, spread evenly over the exploration order)
+				stepU := 1
+				if len(unsupModels) > 48 {
+					stepU = len(unsupModels) / 48
+				}
+				for k := 0; k < len(unsupModels) && len(ucases) < 48; k += stepU {
+					ucases = append(ucases, nativeCase{Harness: h.Name, Model: unsupModels[k]})
+				}
+				uouts, uerr := nat.run(pkg, ucases)
+				if os.Getenv("VCHECK_DEBUG") != "" {
+					fmt.Fprintf(os.Stderr, "unsupported replay: %d cases, %d outcomes, err=%v\n", len(ucases), len(uouts), uerr)
+				}
+				if uerr != nil && len(uouts) < len(ucases) {
+					// (outcomes are flushed at the end of a batch, so a process
+					// that dies loses them: find the culprit case by case)
+					for _, dead := range ucases {
+						one, err1 := nat.run(pkg, []nativeCase{dead})
+						if err1 == nil || len(one) > 0 {
+							continue
+						}
+						replayN++
+						rf := filepath.Join(verifDir, "replay", fmt.Sprintf("%s-%s-%d.json", *prop, h.Name, replayN))
+						b, _ := json.MarshalIndent(map[string]interface{}{
+							"property": *prop, "harness": h.Name, "package": pkg, "site": "native.crash", "inputs": dead.Model,
+							"native_panic": "the native twin's process died on inputs that lead outside the engine's encoding: " + tail(err1.Error(), 600),
+						}, "", " ")
+						os.WriteFile(rf, b, 0644)
+						cr.violations = append(cr.violations, fmt.Sprintf("VIOLATION property=%s replay=%s", *prop, rf))
+						fmt.Printf("  counterexample: harness=%s site=native.crash (the process died; path outside the encoding) inputs=%v\n", h.Name, dead.Model)
+						break
+					}
+				}
+			}
 			// --- native validation of path models (translator validation)
 			maxVal := 48
 			if *tier == "thorough" {
@@ -519,8 +562,18 @@ func cmdCheck(args []string) {
 				// end. Whatever the engine thought, the native twin is the
 				// real code: a process that dies under a harness is a
 				// violation, confirmed once more by a run on its own.
-				dead := cases[len(outs)]
-				one, err1 := nat.run(pkg, []nativeCase{dead})
+				// (outcomes are flushed at the end of a batch: find the culprit
+				// case by case)
+				var dead nativeCase
+				var one []nativeOutcome
+				var err1 error
+				for _, c := range cases {
+					one, err1 = nat.run(pkg, []nativeCase{c})
+					if err1 != nil && len(one) == 0 {
+						dead = c
+						break
+					}
+				}
 				if err1 != nil && len(one) == 0 {
 					replayN++
 					rf := filepath.Join(verifDir, "replay", fmt.Sprintf("%s-%s-%d.json", *prop, h.Name, replayN))
